@@ -312,17 +312,46 @@ UNCOVERED_OK = {
 
 
 def r5_uncovered(run, w):
-  R5 = run.rule("C04-R5", "only the enumerated calls of apply_user_actions run outside the "
-                "guarded region", floor=6)
+  R5 = run.rule("C04-R5", "only the enumerated calls of apply_user_actions, and helpers that cannot "
+                "reach a document mutation, run outside the guarded region", floor=6)
+  from ..callgraph import CallGraph
   fn = w.fn("engine.Engine.apply_user_actions")
-  trys = [s for s in fn.node.body if isinstance(s, ast.Try)]
+  cg = CallGraph(w)
+  # functions that change document state or run formulas: nothing that reaches them may run
+  # uncovered unless it is enumerated above with its reason
+  seeds = {"engine.Engine.apply_doc_action", "engine.Engine._update_loop",
+           "engine.Engine._recompute", "engine.Engine._recompute_step"}
+  seeds |= {m.qualname for m in w.repo.cls("docactions.DocActions").methods.values()}
+  seeds |= {m.qualname for m in w.useraction_methods().values()}
+  seeds = {q for q in seeds if w.repo.has_func(q)}
+  if len(seeds) < 20:
+    raise AnalysisError("document-mutator seed set shrank to %d functions" % len(seeds))
+  dangerous = cg.reaches(seeds)
+  mod = fn.fi.module
   for s in fn.node.body:
     if isinstance(s, ast.Try):
       continue
     for c in calls_in(s):
       nm = fn.name(c)
+      ok = nm in UNCOVERED_OK
+      why = None
+      if not ok:
+        tg = cg.resolve(fn, c)
+        if tg:
+          bad = sorted(t.qualname for t in tg if t.qualname in dangerous)
+          ok = not bad
+          why = "may reach a document mutation through %s" % bad[0] if bad else None
+        else:
+          # builtins and modules from outside the repository hold no document state
+          root = (nm or "").split(".")[0]
+          imp = mod.imports.get(root)
+          ok = (nm is not None and "." not in nm and root not in mod.functions and
+                root not in mod.classes and imp is None and root != "self") or \
+               (imp is not None and imp[1] not in w.repo.modules)
+          why = None if ok else "callee cannot be resolved"
       run.ob(R5, fn.qualname, short(c), "call outside the guarded region is in the enumerated "
-             "safe set", nm in UNCOVERED_OK, fi=fn.fi, node=c, nontrivial=False)
+             "safe set or cannot reach a document mutation", ok, witness=why, fi=fn.fi, node=c,
+             nontrivial=False)
 
 
 D = "sandbox/grist/docactions.py"
